@@ -76,7 +76,19 @@ def impl(case):
         out["trace_formula"] = ok_tr
     if case.get("diag"):
         d = np.array([complex(a, b) for a, b in case["diag"]], dtype=complex)
-        wd = matrix_decomposition_diagonal(d.copy())
+        # the same diagonal in every representation numpy offers for it (a seeded change computed the butterfly in the input's
+        # integer dtype): complex, float, several integer widths, bool, strided and reversed views
+        dl = case.get("diag_layout", "complex")
+        if dl == "float": din = d.real.copy()
+        elif dl in ("int64", "int32", "int8"): din = d.real.astype(dl)
+        elif dl == "bool": din = d.real.astype(bool)
+        elif dl == "strided":
+            big = np.zeros(2 * len(d), dtype=complex); big[::2] = d; din = big[::2]
+        elif dl == "reversed": din = np.ascontiguousarray(d[::-1])[::-1]
+        else: din = d.copy()
+        keep = din.copy()
+        wd = matrix_decomposition_diagonal(din)
+        out["diag_input_untouched"] = bool(np.array_equal(din, keep))
         out["Wd"] = [ex(z) for z in wd]
         full = matrix_decomposition(np.diag(d))
         agree = True
@@ -162,6 +174,11 @@ def main():
             c["mixed"] = [gm[1] if isinstance(gm, tuple) else gm, ck.rng.choice([30, 40, 45])]
         if kind in ("diagonal",) or ck.rng.random() < 0.2:
             c["diag"] = [m[i][i] for i in range(2 ** n)] if kind == "diagonal" else [[ck.rng.randint(-4, 4), ck.rng.randint(-4, 4)] for _ in range(2 ** n)]
+            c["diag_layout"] = ck.rng.choice(["complex", "complex", "strided", "reversed", "float", "int64", "int32", "int8", "bool"])
+            if c["diag_layout"] in ("float", "int64", "int32", "int8"):
+                c["diag"] = [[a, 0] for a, _ in c["diag"]]
+            elif c["diag_layout"] == "bool":
+                c["diag"] = [[1 if (a + b) % 2 else 0, 0] for a, b in c["diag"]]
         c["unitary_like"] = True   # entropy and influence are defined for every operator (misnomer kept): always compared
         cases.append(c)
     res = ck.impl("c13", cases, per_case_s=120)
@@ -175,6 +192,7 @@ def main():
     for i, (c, r) in enumerate(zip(cases, res)):
         stats["kinds"][c["kind"]] = stats["kinds"].get(c["kind"], 0) + 1
         stats.setdefault("layouts", {})[c["layout"]] = stats.setdefault("layouts", {}).get(c["layout"], 0) + 1
+        if c.get("diag"): stats.setdefault("diag_layouts", {})[c["diag_layout"]] = stats.setdefault("diag_layouts", {}).get(c["diag_layout"], 0) + 1
         if "exc" in r:
             ck.fail(None, "matrix_decomposition raised %s on a %s %dx%d matrix" % (r["exc"], c["kind"], 2 ** c["n"], 2 ** c["n"]), {"case": c, "result": r}); continue
         bad = []
@@ -184,7 +202,7 @@ def main():
         if r["W"] != W:
             k = next(j for j in range(len(W)) if j >= len(r["W"]) or r["W"][j] != W[j])
             bad.append("weight vector differs from the model at index %d: implementation 2^n*w = %s, model %s" % (k, r["W"][k] if k < len(r["W"]) else None, W[k]))
-        for key in ("reconstructs", "trace_formula", "diag_agrees", "input_untouched", "mixed_ok"):
+        for key in ("reconstructs", "trace_formula", "diag_agrees", "input_untouched", "mixed_ok", "diag_input_untouched"):
             if key in r and r[key] is not True:
                 bad.append("%s is %s" % (key, r[key]))
         if c.get("diag"):
